@@ -12,6 +12,12 @@ thread_local! {
     static CMPLOG: RefCell<Vec<[i32; 6]>> = const { RefCell::new(Vec::new()) };
     static NEXT_ID: Cell<u32> = const { Cell::new(1) };
     static PROBE: Cell<u32> = const { Cell::new(0) };
+    static LOGCMP: Cell<bool> = const { Cell::new(true) };
+}
+
+/// bulk runs (hundreds of thousands of calls observed as one) do not record their comparisons
+pub fn set_cmp_logging(on: bool) {
+    LOGCMP.with(|l| l.set(on));
 }
 
 /// payload of an injected panic
@@ -49,6 +55,9 @@ pub fn end() -> (u64, Vec<[i32; 6]>) {
 
 #[inline]
 fn log_cmp(a: [i32; 6]) {
+    if !LOGCMP.with(|l| l.get()) {
+        return;
+    }
     CMPLOG.with(|l| l.borrow_mut().push(a));
 }
 
